@@ -47,6 +47,46 @@ class TLCResult:
         return "\n".join(self.out.splitlines()[-n:])
 
 
+def _acquire_slot():
+    """A machine-wide cap on concurrently running TLC JVMs (each may grow to its -Xmx): several checks started
+    side by side (development, seed tests) otherwise exhaust the memory and the kernel kills JVMs at random, which
+    would surface as spurious machinery errors.  VH_TLC_SLOTS=0 switches the cap off; one check alone never needs
+    more than 16.  Waiting for a slot is not counted against the TLC timeout."""
+    n = int(os.environ.get("VH_TLC_SLOTS", "24"))
+    if n <= 0:
+        return None
+    import fcntl
+    d = os.path.join(tempfile.gettempdir(), "vh-tlc-slots")
+    try:
+        os.makedirs(d, exist_ok=True)
+    except OSError:
+        return None
+    waited = 0.0
+    while True:
+        for k in range(n):
+            try:
+                f = open(os.path.join(d, "slot-%d" % k), "a")
+            except OSError:
+                return None
+            try:
+                fcntl.flock(f, fcntl.LOCK_EX | fcntl.LOCK_NB)
+                return f
+            except OSError:
+                f.close()
+        time.sleep(0.25)
+        waited += 0.25
+        if waited > 900:
+            return None
+
+
+def _release_slot(f):
+    if f is not None:
+        try:
+            f.close()
+        except OSError:
+            pass
+
+
 def run(module, cfg_text=None, cfg=None, workers=16, env=None, timeout=900, simulate=None,
         coverage=True, extra=(), depth_first=False, keep_out=True, continue_=False, jvm=()):
     """module: file name in SPEC_DIR (or absolute path).  cfg_text: literal cfg content
@@ -84,12 +124,15 @@ def run(module, cfg_text=None, cfg=None, workers=16, env=None, timeout=900, simu
         e.pop("JAVA_TOOL_OPTIONS", None)
         if env:
             e.update({k: str(v) for k, v in env.items()})
+        slot = _acquire_slot()
         t0 = time.time()
         try:
             p = subprocess.run(cmd, cwd=os.path.dirname(mpath), env=e, stdout=subprocess.PIPE,
                                stderr=subprocess.STDOUT, text=True, timeout=timeout)
         except subprocess.TimeoutExpired as ex:
             raise TLCError("TLC timed out after %ss: %s" % (timeout, " ".join(cmd)))
+        finally:
+            _release_slot(slot)
         r = TLCResult()
         r.wall_s = time.time() - t0
         r.rc = p.returncode
